@@ -1,9 +1,11 @@
 import WS.Props.C03
+import WS.Gen.Facts
+import WS.Proofs.ReaderInv
 /-
   C08 — Read limit.  (Memory bounds are measured by the harness: a theorem cannot see the allocator.)
 -/
 namespace WS.Props.C08
-open WS WS.Model WS.Spec
+open WS WS.Model WS.Spec WS.Proofs.ReaderInv
 
 variable (inf : Inflate) (cfg : RCfg)
 
@@ -14,7 +16,18 @@ theorem takeLimited_spec (n : Int) (d : Bytes) :
     (0 ≤ n → ((takeLimited n d).1.length : Int) ≤ n) ∧
     ((takeLimited n d).2.2 = true ↔ (0 ≤ n ∧ n ≤ d.length)) ∧
     ((takeLimited n d).2.2 = false → (takeLimited n d).1 = d ∧ (0 ≤ n → (takeLimited n d).2.1 = n - d.length)) := by
-  sorry
+  rcases takeLimited_cases n d with ⟨hn, e⟩ | ⟨hn, hlt, e⟩ | ⟨hn, hge, e⟩ <;> rw [e] <;> dsimp only
+  · refine ⟨List.prefix_refl _, fun h => by omega, ?_, fun _ => ⟨rfl, fun h => by omega⟩⟩
+    constructor
+    · intro h; cases h
+    · intro h; omega
+  · refine ⟨List.prefix_refl _, fun _ => by omega, ?_, fun _ => ⟨rfl, fun _ => rfl⟩⟩
+    constructor
+    · intro h; cases h
+    · intro h; omega
+  · refine ⟨List.take_prefix _ _, fun _ => ?_, ?_, fun h => by cases h⟩
+    · simp only [List.length_take]; omega
+    · exact ⟨fun _ => ⟨hn, hge⟩, fun _ => rfl⟩
 
 /-- **over-limit messages are never reported complete**: with read limit `L ≥ 0`, for every
 inbound stream whatsoever (any fragmentation, compressed or not, any inflater), every message
@@ -23,7 +36,9 @@ theorem limit_respected (L : Nat) (hL : cfg.limit = L) (fs : List Frame) (tl : T
     ∀ ev ∈ runReader inf cfg [] initR fs tl,
       (∀ typ d, ev = .msg typ d → d.length ≤ L) ∧
       (∀ typ d why amb, ev = .partialMsg typ d why amb → d.length ≤ L + 1) := by
-  sorry
+  intro ev hev
+  have hI : LimInv L initR := by intro typ acc n hm; cases hm
+  exact lim_run inf cfg L hL fs initR tl hI ev hev
 
 /-- hitting the limit is reported with a Close frame carrying status 1009. -/
 theorem limit_close_1009 (limits : List Int) (st : RState) :
@@ -35,12 +50,34 @@ hypothesis asks each message to fit `L`. Restated for a single unfragmented mess
 theorem exactly_limit_delivered (L : Nat) (hL : cfg.limit = L) (f : Frame) (tl : Tail)
     (hv : ValidSeq cfg L none [f]) (hfin : f.h.fin = true) (hop : f.h.opcode = opText ∨ f.h.opcode = opBinary) :
     runReader inf cfg [] initR [f] tl = .msg f.h.opcode f.data :: runReader inf cfg [] { initR with idx := 1 } [] tl := by
-  sorry
+  have hvr := WS.Props.C03.valid_run inf cfg (L : Int) hL none [] 0 [f] tl hv
+  have hping : ¬ f.h.opcode = opPing := by
+    rcases hop with h | h <;> rw [h] <;> decide
+  have hpong : ¬ f.h.opcode = opPong := by
+    rcases hop with h | h <;> rw [h] <;> decide
+  have hflt : (f.h.opcode == opText || f.h.opcode == opBinary) = true := by
+    rcases hop with h | h <;> rw [h] <;> decide
+  have hs : specRun none [f] = ([.msg f.h.opcode f.data], none) := by
+    simp [specRun, specStep, hping, hpong, hfin]
+  rw [hs] at hvr
+  simp only [List.filter_cons, hflt, if_true, List.filter_nil, List.length_singleton] at hvr
+  exact hvr
 
 /-- unlimited (`SetReadLimit(-1)`): no stream ever triggers the limit stop. -/
 theorem unlimited_never_limits (hL : cfg.limit < 0) (fs : List Frame) (tl : Tail) :
     ∀ ev ∈ runReader inf cfg [] initR fs tl,
       (∀ typ d amb, ev ≠ .partialMsg typ d .limit amb) ∧ ev ≠ .fail .limit := by
-  sorry
+  intro ev hev
+  have hI : UnlInv initR := by intro typ acc n hm; cases hm
+  exact unl_run inf cfg hL fs initR tl hI ev hev
+
+/-- per-run obligation (regenerated facts): the default limit is 32768, the limit reader is created
+with `defaultReadLimit + 1`, and `SetReadLimit` stores `n + 1` for `n ≥ 0` and `n` otherwise — which
+is what `Model.allowance` assumes. -/
+theorem facts :
+    WS.Gen.Facts.c_defaultReadLimit = 32768 ∧
+    WS.Gen.Facts.l_newMsgReader_limit = "defaultReadLimit + 1" ∧
+    WS.Gen.Facts.l_SetReadLimit_body = "{ if n >= 0 { n++ } c.msgReader.limitReader.limit.Store(n) }" := by
+  decide
 
 end WS.Props.C08
